@@ -1,4 +1,5 @@
 import Spp.Props.C09Containers
+import Spp.Lemmas.IntLit
 namespace Spp.C09
 open Spp C17
 
@@ -258,6 +259,16 @@ theorem definition_roundtrip (hI : IntRoundTrip) (hV : FValRoundTrip) (d : LDef)
     · rw [h]; simp
   simp only [hcond, Bool.false_eq_true, if_false]
   rw [← hdate]
+
+/-- `int(str(i)) == i` holds for the model's own printer and parser: no hypothesis is needed for integers. -/
+theorem intRoundTrip : IntRoundTrip := fun i => readInt_repr i
+
+/-- The whole-definition round trip with the integer hypothesis discharged: the only remaining assumption is that a
+    float printed by `str` is read back by `float` as the same value (`FValRoundTrip`, CPython's shortest-repr
+    guarantee; it is used for calibrator coefficients, spline points and looked-up sizes only). -/
+theorem definition_roundtrip_main (hV : FValRoundTrip) (d : LDef) (hwf : DefWF d) (x : XmlNode) (hw : toXml d = .ok x) :
+    loadXtce { nsPrefix := d.nsPrefix, nsmap := d.nsmap } d.root x = .ok d :=
+  definition_roundtrip intRoundTrip hV d hwf x hw
 
 /-! ### non-vacuity: a concrete definition inside the regime, and its round trip computed outright -/
 
